@@ -1,9 +1,9 @@
 /-
 Type-system documents (helper lemmas for Props/C07Doc): `TypeSystemExtensionDocument = SOI ~
-TypeSystemDefinitionOrExtension+ ~ EOI` on the rendering of a list of type definitions, through
+TypeSystemDefinitionOrExtension+ ~ EOI` on the rendering of a list of type-system definitions and extensions, through
 `parse_type_system_document` (`parseTs`).
 -/
-import NitroVerif.Lemmas.ParseDocTsItem
+import NitroVerif.Lemmas.ParseDocTsDirDef
 import NitroVerif.Lemmas.ParseDocExec
 namespace NitroVerif.DocParse
 open NitroVerif.Peg NitroVerif.Gen NitroVerif.Gen.Parts NitroVerif.Build NitroVerif.TypeParse NitroVerif.StringParse
@@ -49,18 +49,60 @@ def WFTypeDef (t : TypeDef) : Prop :=
   | .enum => ∀ v ∈ t.values, WFEnumVal v
   | .input => ∀ v ∈ t.inputs, WFIVD v
 
-/-- the text of an item; schema definitions, directive definitions and extensions are not covered -/
+/-- the text of a type extension of any kind -/
+def rTypeExtAny (τ : Trivia) (sep : Bool) (p : Nat) (t : TypeDef) : List Char :=
+  match t.kind with
+  | .scalar => rScalarExt τ sep p t
+  | .object => rObjExt τ (kindKw .object) sep p t
+  | .interface => rObjExt τ (kindKw .interface) sep p t
+  | .union => rUnionExt τ sep p t
+  | .enum => rEnumExt τ sep p t
+  | .input => rInputExt τ sep p t
+
+def wpTypeExtAny (τ : Trivia) (inp : List Char) (sep : Bool) (p : Nat) (t : TypeDef) : TypeDef :=
+  match t.kind with
+  | .scalar => wpScalarExt τ inp sep p t
+  | .object => wpObjExt τ inp .object (kindKw .object) sep p t
+  | .interface => wpObjExt τ inp .interface (kindKw .interface) sep p t
+  | .union => wpUnionExt τ inp sep p t
+  | .enum => wpEnumExt τ inp sep p t
+  | .input => wpInputExt τ inp sep p t
+
+/-- well-formed type extensions: valid names, well-formed parts; an object or interface type extension has fields,
+    directives or interfaces, a union type extension members or directives -/
+def WFTypeExt (t : TypeDef) : Prop :=
+  validName t.name.toList ∧ WFDirs t.dirs ∧
+  match t.kind with
+  | .scalar => True
+  | .object => (∀ x ∈ t.implements, validName x.1.toList) ∧ (∀ f ∈ t.fields, WFFieldDef f) ∧
+      (t.implements ≠ [] ∨ t.dirs ≠ [] ∨ t.fields ≠ [])
+  | .interface => (∀ x ∈ t.implements, validName x.1.toList) ∧ (∀ f ∈ t.fields, WFFieldDef f) ∧
+      (t.implements ≠ [] ∨ t.dirs ≠ [] ∨ t.fields ≠ [])
+  | .union => (t.members ≠ [] ∨ t.dirs ≠ []) ∧ ∀ x ∈ t.members, validName x.1.toList
+  | .enum => ∀ v ∈ t.values, WFEnumVal v
+  | .input => ∀ v ∈ t.inputs, WFIVD v
+
+/-- the text of an item -/
 def rTsItem (τ : Trivia) : Bool → Nat → TsItem → List Char
   | sep, p, .typeDef t => rTypeDefAny τ sep p t
-  | _, _, _ => []
+  | sep, p, .schemaDef s => rSchemaDef τ sep p s
+  | sep, p, .directiveDef d => rDirectiveDef τ sep p d
+  | sep, p, .schemaExt s => rSchemaExt τ sep p s
+  | sep, p, .typeExt t => rTypeExtAny τ sep p t
 
 def wpTsItem (τ : Trivia) (inp : List Char) : Bool → Nat → TsItem → TsItem
   | sep, p, .typeDef t => .typeDef (wpTypeDefAny τ inp sep p t)
-  | _, _, i => i
+  | sep, p, .schemaDef s => .schemaDef (wpSchemaDef τ inp sep p s)
+  | sep, p, .directiveDef d => .directiveDef (wpDirectiveDef τ inp sep p d)
+  | sep, p, .schemaExt s => .schemaExt (wpSchemaExt τ inp sep p s)
+  | sep, p, .typeExt t => .typeExt (wpTypeExtAny τ inp sep p t)
 
 def WFTsItem : TsItem → Prop
   | .typeDef t => WFTypeDef t
-  | _ => False
+  | .schemaDef s => WFSchemaDef s
+  | .directiveDef d => WFDirectiveDef d
+  | .schemaExt s => WFSchemaExt s
+  | .typeExt t => WFTypeExt t
 
 theorem defHead_prefix {τ : Trivia} {sN : Bool} {p : Nat} {desc : Option String} {kw : List Char} {name : Name}
     {Rr : List Char} (hname : validName name.toList) (h : HasAt inp p (rDefHead τ sN p desc kw name ++ Rr)) :
@@ -70,12 +112,6 @@ theorem defHead_prefix {τ : Trivia} {sN : Bool} {p : Nat} {desc : Option String
   simp only [rDefHead] at h0
   refine ⟨hasAt_append.mpr ⟨h0.left, h0.right.left⟩, ?_⟩
   exact tok_of_hd h0.right.right (hd_tk (hd_of_validName hname)) (fun d => nameStart_not_trivia)
-
-/-- the round-trip statement for one item -/
-def TsItemOk (inp : List Char) (p : Nat) (t : List Char) (it : TsItem) : Prop :=
-  ∃ pr, RunsK (B t.length + 130) (.call R.TypeSystemDefinitionOrExtension) (At inp p) (At inp (p + t.length)) [pr] ∧
-    PairOk R.TypeSystemDefinitionOrExtension p pr ∧
-    ∀ fuel, t.length ≤ fuel → buildTypeSystemDefinitionOrExtension (Ctx.spec inp) fuel pr = .ok it
 
 theorem tsItem_of_kind {τ : Trivia} (hτ : ∀ q, Ws (τ q)) (k : TypeKind) (desc : Option String) {p : Nat} {t : List Char}
     {td : TypeDef} (hk : KindDefOk inp (kindDefRule k) p t td)
@@ -141,10 +177,59 @@ theorem tsItemT (τ : Trivia) (hτ : ∀ q, Ws (τ q)) (it : TsItem) (hwf : WFTs
       obtain ⟨h1, h2⟩ := defHead_prefix hname hpre
       exact tsItem_of_kind hτ .input t.desc (inputDefT τ hτ t hname hdirs hk h hn) h1 h2
         (by simp [rInputDef, rDefHead])
-  | schemaDef s => exact absurd hwf id
-  | directiveDef d => exact absurd hwf id
-  | schemaExt s => exact absurd hwf id
-  | typeExt t => exact absurd hwf id
+  | schemaDef s => exact schemaDefT τ hτ s hwf h hn
+  | directiveDef d => exact directiveDefT τ hτ d hwf h hn
+  | schemaExt s => exact schemaExtT τ hτ s hwf h hn
+  | typeExt t =>
+    obtain ⟨hname, hdirs, hk⟩ := hwf
+    simp only [rTsItem, wpTsItem, rTypeExtAny, wpTypeExtAny] at h hn ⊢
+    cases hkind : t.kind with
+    | scalar =>
+      simp only [hkind] at h hn hk ⊢
+      have hpre := h
+      simp only [rScalarExt] at hpre
+      obtain ⟨h1, h2⟩ := extHead_prefix hname hpre
+      exact tsItem_of_ext hτ .scalar (scalarExtT τ hτ t hname hdirs h hn) h1 h2 (by simp [rScalarExt, rExtHead])
+    | object =>
+      simp only [hkind] at h hn hk ⊢
+      obtain ⟨himpl, hfields, hne⟩ := hk
+      have hpre := h
+      simp only [rObjExt] at hpre
+      obtain ⟨h1, h2⟩ := extHead_prefix hname hpre
+      exact tsItem_of_ext hτ .object (objExtAllT τ hτ t hname himpl hdirs hfields hne h hn) h1 h2
+        (by simp [rObjExt, rExtHead])
+    | interface =>
+      simp only [hkind] at h hn hk ⊢
+      obtain ⟨himpl, hfields, hne⟩ := hk
+      have hpre := h
+      simp only [rObjExt] at hpre
+      obtain ⟨h1, h2⟩ := extHead_prefix hname hpre
+      exact tsItem_of_ext hτ .interface (ifaceExtT τ hτ t hname himpl hdirs hfields hne h hn) h1 h2
+        (by simp [rObjExt, rExtHead])
+    | union =>
+      simp only [hkind] at h hn hk ⊢
+      obtain ⟨hne, hmv⟩ := hk
+      have hk' := unionExtT τ hτ t hname hdirs hne hmv h hn
+      have hpre : ∃ Rr, rUnionExt τ sep p t = rExtHead τ false p (kindKw .union) t.name ++ Rr := by
+        simp only [rUnionExt]
+        split
+        · exact ⟨_, rfl⟩
+        · exact ⟨_, rfl⟩
+      obtain ⟨Rr, hRr⟩ := hpre
+      obtain ⟨h1, h2⟩ := extHead_prefix hname (hRr ▸ h)
+      exact tsItem_of_ext hτ .union hk' h1 h2 (by rw [hRr]; simp [rExtHead])
+    | «enum» =>
+      simp only [hkind] at h hn hk ⊢
+      have hpre := h
+      simp only [rEnumExt] at hpre
+      obtain ⟨h1, h2⟩ := extHead_prefix hname hpre
+      exact tsItem_of_ext hτ .enum (enumExtT τ hτ t hname hdirs hk h hn) h1 h2 (by simp [rEnumExt, rExtHead])
+    | input =>
+      simp only [hkind] at h hn hk ⊢
+      have hpre := h
+      simp only [rInputExt] at hpre
+      obtain ⟨h1, h2⟩ := extHead_prefix hname hpre
+      exact tsItem_of_ext hτ .input (inputExtT τ hτ t hname hdirs hk h hn) h1 h2 (by simp [rInputExt, rExtHead])
 
 theorem hd_rTsItem (τ : Trivia) (sep : Bool) (p : Nat) (it : TsItem) (hwf : WFTsItem it) :
     Hd (fun d => nameStart d ∨ d = '"') (rTsItem τ sep p it) := by
@@ -153,10 +238,15 @@ theorem hd_rTsItem (τ : Trivia) (sep : Bool) (p : Nat) (it : TsItem) (hwf : WFT
     simp only [rTsItem, rTypeDefAny]
     cases t.kind <;> simp only [rScalarDef, rObjDef, rUnionDef, rEnumDef, rInputDef] <;>
       exact (hd_rDefHead τ _ p t.desc _ t.name (kindKw_valid _)).append _
-  | schemaDef s => exact absurd hwf id
-  | directiveDef d => exact absurd hwf id
-  | schemaExt s => exact absurd hwf id
-  | typeExt t => exact absurd hwf id
+  | schemaDef s => exact hd_rSchemaDef τ sep p s
+  | directiveDef d => exact hd_rDirectiveDef τ sep p d
+  | schemaExt s => exact hd_rSchemaExt τ sep p s
+  | typeExt t =>
+    simp only [rTsItem, rTypeExtAny]
+    cases t.kind <;> simp only [rScalarExt, rObjExt, rUnionExt, rUnionExtD, rUnionExtM, rEnumExt, rInputExt] <;>
+      first
+      | exact (hd_rExtHead τ _ p _ t.name).append _
+      | (split <;> exact (hd_rExtHead τ _ p _ t.name).append _)
 
 /-! ### the document -/
 
@@ -182,7 +272,7 @@ theorem filter_tsItems (pss : List Pair) (eoi : Pair) (h : ∀ x ∈ pss, x.rule
     simp [List.filter, this]
   rw [h1, h2, List.append_nil]
 
-/-- parsing and building the rendering of a non-empty list of well-formed type definitions -/
+/-- parsing and building the rendering of a non-empty list of well-formed items -/
 theorem tsDoc_parse (τ : Trivia) (hτ : ∀ q, Ws (τ q)) (doc : List TsItem) (hne : doc ≠ []) (hwf : ∀ d ∈ doc, WFTsItem d) :
     ∃ pr, Peg.parse gList (defaultFuel (rTsDoc τ doc)) R.TypeSystemExtensionDocument (rTsDoc τ doc) = .pairs [pr] ∧
       CleanP pr ∧ buildTypeSystemDocument (Ctx.spec (rTsDoc τ doc)) (4 * (rTsDoc τ doc).length + 64) [pr] =
@@ -268,7 +358,7 @@ theorem tsDoc_parse (τ : Trivia) (hτ : ∀ q, Ws (τ q)) (doc : List TsItem) (
       rw [this]
       simp only [wpTsDoc, hG]
 
-/-- `parse_type_system_document` on the rendering of a document of type definitions returns the document with the true
+/-- `parse_type_system_document` on the rendering of a type-system document returns the document with the true
     positions -/
 theorem parseTs_rTsDoc (τ : Trivia) (hτ : ∀ q, Ws (τ q)) (doc : List TsItem) (hne : doc ≠ []) (hwf : ∀ d ∈ doc, WFTsItem d) :
     parseTs (rTsDoc τ doc) = .ok (wpTsDoc τ (rTsDoc τ doc) doc) := by
